@@ -49,6 +49,13 @@ class Wire(object):
             # (scenarios use one connection at a time)
             self.next_ns = {'i2t': 0, 't2i': 0}
             self.acked = {'i2t': 0, 't2i': 0}
+            self.cc_seen = getattr(self, 'cc_seen', 0) + 1
+        if q[0] == 'I' and getattr(self, 'cc_seen', 0) >= 2 and \
+                getattr(self, 'watch', None) is not None and \
+                not self.watch.get('accept2_returned'):
+            # data of the second connection is on the wire while the server
+            # application is still inside accept() (CC already sent)
+            self.watch['data_before_accept_returned'] = True
         if q[0] == 'I':
             ns, nr = q[3], q[4]
             if ns != self.next_ns[d]:
@@ -102,6 +109,7 @@ def execute(cfg, chooser, want_trace=False):
     assert A.mac is mi and B.mac is mt
     n_ab, n_ba = cfg['n']
     out = dict(got_b=[], got_a=[], got_b2=[], threads={}, est=0)
+    wire.watch = out
     stop = [False]
     srv = nfc.llcp.Socket(B, DLC)
     srv.setsockopt(nfc.llcp.SO_RCVBUF, rw_b)
@@ -183,6 +191,7 @@ def execute(cfg, chooser, want_trace=False):
             # the accepted socket of the first connection is kept (not
             # closed) while the second connection is accepted and used
             conn2 = srv.accept()
+            out['accept2_returned'] = True
             for i in range(n_ab):
                 m = conn2.recv()
                 out['got_b2'].append(m)
@@ -288,6 +297,14 @@ def judge(cfg, s, out, wire):
                         dict(error=repr(t.exc))))
     for kind, d, info in wire.bad[:3]:
         bad.append(('wire|%s' % kind, dict(direction=d, info=info)))
+    if cfg.get('extra') == 'reconnect' and out.get(
+            'data_before_accept_returned'):
+        # the specific history: the peer's first I PDUs of the second
+        # connection arrived while the server thread was between
+        # DataLinkConnection.accept() (CC queued) and the registration of the
+        # new socket in LogicalLinkController.accept()
+        bad = [('reconnect|data-before-accept-registered|' + sig, det)
+               for sig, det in bad]
     return bad
 
 
